@@ -3,12 +3,12 @@
 # demo passes on HEAD, fails with the patch; baseline suite still passes with the patch.
 # The demo's first line holds its compile command (written against <worktree>).
 d=$1; wt=$2
-cmd=$(head -1 $d/demo.cpp 2>/dev/null || head -1 $d/demo.c || head -2 $d/demo.sh | tail -1); cmd=${cmd#// }; cmd=${cmd#//}; cmd=${cmd#/\* }; cmd=${cmd% \*/}; cmd=${cmd## }; export WT=$wt
+if [ -f $d/demo.sh ]; then cmd="sh ./demo.sh"; else cmd=$(head -1 $d/demo.cpp 2>/dev/null || head -1 $d/demo.c); cmd=${cmd#// }; cmd=${cmd#//}; cmd=${cmd#/\* }; cmd=${cmd% \*/}; fi; export WT=$wt
 git -C $wt checkout -q -- . 
 # the first line is "compile && run" (paths as the author used them); its exit status is the demo's verdict
 # if the line only compiles (no "&&"), the -o target is run afterwards
 run_demo(){ (cd $d && eval "$cmd" >/tmp/confirm_run.log 2>&1); rc=$?; [ $rc != 0 ] && return $rc
-  case "$cmd" in *"&&"*) return 0;; esac
+  case "$cmd" in *"&&"*|"sh ./demo.sh") return 0;; esac
   exe=$(echo "$cmd" | sed -n 's/.*-o *\([^ ]*\).*/\1/p'); (cd $d && timeout 120 $exe >>/tmp/confirm_run.log 2>&1); return $?; }
 run_demo; a=$?
 git -C $wt apply $d/patch.diff || { echo "patch does not apply"; exit 2; }
